@@ -96,8 +96,17 @@ struct Interp
          if (anyFilt) for (auto & x : pf) {MessageRef fm = ServerSim::ArchiveWithTag(x.second); (void) m()->AddMessage(PR_NAME_FILTERS, fm() ? fm : GetMessageFromPool(0));}
          return m;
       }
-      if (k == "routedefault") {MessageRef m = GetMessageFromPool(PR_COMMAND_SETPARAMETERS); for (size_t i=1; i<n; i++) (void) m()->AddString(PR_NAME_KEYS, Unesc(A(i)).c_str()); return m;}
+      if (k == "routedefault")
+      {
+         MessageRef m = GetMessageFromPool(PR_COMMAND_SETPARAMETERS);
+         bool anyFilt = false; std::vector<std::pair<std::string, Filt> > pf;
+         for (size_t i=1; i<n; i++) {std::string pat; Filt f; SplitPatFilt(A(i), pat, f); pf.push_back(std::make_pair(pat, f)); if (!f.IsNone()) anyFilt = true;}
+         for (auto & x : pf) (void) m()->AddString(PR_NAME_KEYS, x.first.c_str());
+         if (anyFilt) for (auto & x : pf) {MessageRef fm = ServerSim::ArchiveWithTag(x.second); (void) m()->AddMessage(PR_NAME_FILTERS, fm() ? fm : GetMessageFromPool(0));}
+         return m;
+      }
       if (k == "rmroute") {MessageRef m = GetMessageFromPool(PR_COMMAND_REMOVEPARAMETERS); (void) m()->AddString(PR_NAME_KEYS, "\\!SnKy"); return m;}
+      if (k == "rmroutefilters") {MessageRef m = GetMessageFromPool(PR_COMMAND_REMOVEPARAMETERS); (void) m()->AddString(PR_NAME_KEYS, "\\!SnFl"); return m;}
       if ((k == "insord")&&(n >= 4))
       {
          MessageRef m = GetMessageFromPool(PR_COMMAND_INSERTORDEREDDATA);
@@ -189,6 +198,16 @@ struct Interp
          else if (k == "reset") {Conn * c = sim.UpC(ci); if (c) {c->s2c.broken = true; c->c2s.closed = true; c->departedHow = "reset"; sim.st.inc("f.reset_on_write");}}
          else if ((k == "advance")&&(t.size() >= 2)) {SimClockAdvance(ToU(t[1])); sim.st.inc("f.clock_jump");}
          else if (k == "idle") {if ((sim.nextPulse != MUSCLE_TIME_NEVER)&&(sim.nextPulse > g_simNowUs)) {g_simNowUs = sim.nextPulse; sim.st.inc("idle_jumps");}}
+         else if (((k == "srvclone")||(k == "srvrestore"))&&(t.size() >= 5))
+         {
+            // a server-side clone / save+restore of one of this session's subtrees (no client command involved)
+            Conn * c = sim.UpC(ci); if ((c == NULL)||(!c->session()->IsAttachedToServer())) continue;
+            SetDataNodeFlags flags; for (char ch : t[4]) {if (ch == 'i') flags.SetBit(SETDATANODE_FLAG_ADDTOINDEX); else if (ch == 'o') flags.SetBit(SETDATANODE_FLAG_DONTOVERWRITEDATA);}
+            const status_t r = (k == "srvclone") ? sim.Sess(c)->DoClone(Unesc(t[2]).c_str(), Unesc(t[3]).c_str(), flags) : sim.Sess(c)->DoSaveRestore(Unesc(t[2]).c_str(), Unesc(t[3]).c_str(), flags);
+            sim.st.inc(r.IsOK() ? ((k == "srvclone") ? "p.subtree_cloned" : "p.subtree_restored") : "p.subtree_op_failed");
+            if (sim.orc.index) sim.CheckIndexWellFormed();
+            if (sim.orc.marks) sim.CheckMarks("after a server-side subtree clone/restore");
+         }
          else if (k == "quiesce") sim.Quiesce("quiesce op");
       }
       SetCurOp("final quiesce"); WatchdogArm(0);
